@@ -24,20 +24,22 @@ import (
 )
 
 // quick: two link scenarios per variant, rotating with seed and variant; thorough: all.
-var c05LinkSpecs = []string{"single-mk@Makefile:in", "single-mk@Makefile:out", "pkg4@distinfo:in", "pkg4@Makefile:out", "chmod@args", "pkg4@distinfo:out", "single-mk@Makefile:in-x"}
+var c05LinkSpecs = []string{"single-mk@Makefile:in", "single-mk@Makefile:out", "pkg4@Makefile:in", "pkg4@Makefile:out", "chmod@args", "single-mk@Makefile:in-x"}
 
+// (a symlinked distinfo / PLIST / patch is not loaded at all -- "Invalid symlink name" --: of the
+// files of a package only the Makefile, which is loaded by name, can be a link AND a save target)
 func c05LinkScenarios(seed uint64, v int, thorough bool) []string {
 	if thorough {
 		return c05LinkSpecs
 	}
-	// every run: one Makefile link, one distinfo link or link arguments
-	a := []string{"single-mk@Makefile:in", "single-mk@Makefile:out", "pkg4@Makefile:out", "single-mk@Makefile:in-x"}
-	b := []string{"pkg4@distinfo:in", "chmod@args", "pkg4@distinfo:out"}
+	// quick, per run: one single-file Makefile link, the link arguments, one pkg4 with a linked Makefile
+	a := []string{"single-mk@Makefile:in", "single-mk@Makefile:out", "single-mk@Makefile:in-x"}
+	b := []string{"pkg4@Makefile:in", "pkg4@Makefile:out"}
 	i := int(seed%12) + v
 	if v%2 == 0 {
-		return []string{a[i%len(a)], "chmod@args"}
+		return []string{a[i%len(a)]}
 	}
-	return []string{a[(i+1)%len(a)], b[(i/2)%len(b)]}
+	return []string{"chmod@args", b[(i/2)%len(b)]}
 }
 
 // c05PlantLinks turns a file of the base scenario into a symbolic link to a regular file with
@@ -174,8 +176,8 @@ func (st *c05State) linkCheck(s *c05Scenario, prog []c05Action, cur map[string]c
 	}
 	st.res.Count("link_spec_evaluations_"+phase, 1)
 	st.mu.Lock()
-	if len(st.lcross) < 200 {
-		st.lcross = append(st.lcross, req+"\x00"+a)
+	if len(st.lcross) < 400 {
+		st.lcross = append(st.lcross, c05LCross{Init: c05CanonLinks(s.Old), Cur: c05CanonLinks(cur), Prog: prog, LinkArgs: s.LinkArgs})
 	}
 	st.mu.Unlock()
 	if a == "ok" {
@@ -205,7 +207,7 @@ func (st *c05State) linkCheck(s *c05Scenario, prog []c05Action, cur map[string]c
 // ---------- which stream the report of a failed save goes to ----------
 
 // the oracle knows Model.SaveLog.error_line
-const c05HaveErrLine = false
+const c05HaveErrLine = true
 
 var c05SaveErrTexts = []string{": Cannot write: ", ": Cannot overwrite with autofixed content: ", ": Cannot clear executable bits: "}
 
@@ -374,6 +376,11 @@ func (st *c05State) c05Streams(variant int, thorough bool) {
 					What: fmt.Sprintf("%s: stderr line %q, the model's line %q", where, l, unhx(a))})
 			}
 			res.Count("streams_error_line_equals_model", 1)
+			st.mu.Lock()
+			if len(st.elines) < 6 {
+				st.elines = append(st.elines, l)
+			}
+			st.mu.Unlock()
 		}
 		if exit != ref.Exit {
 			rep["broken"] = "correspondence: a failed save does not change the exit status (Logger.TechErrorf is not counted)"
@@ -386,4 +393,135 @@ func (st *c05State) c05Streams(variant int, thorough bool) {
 			res.Count("streams_ok_only", 1)
 		}
 	})
+}
+
+// ---------- extraction cross-check of the link-aware model ----------
+
+type c05LCross struct {
+	Init, Cur map[string]c05File // links canonical (data = entry name referred to)
+	Prog      []c05Action
+	LinkArgs  []string
+}
+
+// the entries that matter to a link scenario: cat/pkg/, the link targets (shared/, ../outside/, tools/), cat/linked
+func c05LSub(m map[string]c05File) map[string]c05File {
+	out := map[string]c05File{}
+	for p, f := range m {
+		if (strings.HasPrefix(p, "cat/pkg/") || strings.HasPrefix(p, "shared/") || strings.HasPrefix(p, "../outside/") || strings.HasPrefix(p, "tools/") || p == "cat/linked") && len(f.Data) <= 1500 {
+			out[p] = f
+		}
+	}
+	return out
+}
+
+func c05CoqLProg(linkArgs []string, prog []c05Action) string {
+	var es []string
+	for _, a := range linkArgs {
+		es = append(es, "LCheckExec "+c09CoqStr(a))
+	}
+	for _, a := range prog {
+		switch a.Kind {
+		case "S":
+			es = append(es, fmt.Sprintf("LSave %s %s", c09CoqStr(a.Path), c09CoqStr(a.Data)))
+		case "M":
+			es = append(es, "LCheckExec "+c09CoqStr(a.Path))
+		case "T":
+			es = append(es, fmt.Sprintf("LIfSaved true %s %s", c09CoqStr(a.Path), c09CoqStr(a.Data)))
+		case "E":
+			es = append(es, fmt.Sprintf("LIfSaved false %s %s", c09CoqStr(a.Path), c09CoqStr(a.Data)))
+		}
+	}
+	return "[" + strings.Join(es, "; ") + "]"
+}
+
+// c05LinkCrossCheck: up to 24 of the judged link snapshots are re-evaluated by coqc with
+// vm_compute: l_unnamed_changed, the final file system of lrun without a plan, under a
+// crash point (PKill) and under a failing call (PFail); plus error_line on the lines seen.
+func c05LinkCrossCheck(ctx *Ctx, res *Result, umask int, cases []c05LCross, lines []string) {
+	if len(cases) > 24 {
+		step := len(cases)/24 + 1
+		var pick []c05LCross
+		for i := 0; i < len(cases); i += step {
+			pick = append(pick, cases[i])
+		}
+		cases = pick
+	}
+	if len(cases) == 0 && len(lines) == 0 {
+		return
+	}
+	plans := []struct{ tok, coq string }{{"N", "PNone"}, {"K 2 3", "(PKill 2 3)"}, {"F 3 0 EIO", "(PFail 3 (mkfault 0 EIO))"}, {"K 7 0", "(PKill 7 0)"}}
+	trim := func(prog []c05Action) []c05Action {
+		var out []c05Action
+		for _, a := range prog {
+			if len(a.Data) > 40 {
+				a.Data = a.Data[:40]
+			}
+			out = append(out, a)
+		}
+		return out
+	}
+	var reqs []string
+	for i, c := range cases {
+		sc := &c05Scenario{LinkArgs: c.LinkArgs}
+		init := c05InitTokens(c05LSub(c.Init), umask)
+		prog := c05LinkProgTokens(sc, trim(c.Prog))
+		reqs = append(reqs, "lunnamed / "+init+" / "+prog+" / "+c05InitTokens(c05LSub(c.Cur), umask))
+		reqs = append(reqs, "lfault / "+init+" / "+prog+" / "+plans[i%len(plans)].tok)
+	}
+	for _, l := range lines {
+		i := strings.Index(l, ": Cannot write: ")
+		reqs = append(reqs, fmt.Sprintf("errline write %s %s", hx(l[len("ERROR: "):i]), hx(l[i+len(": Cannot write: "):])))
+	}
+	ans, err := runOracle(ctx, "c05", reqs)
+	if err != nil {
+		res.Broken = err.Error()
+		return
+	}
+	var sb strings.Builder
+	sb.WriteString("From PV Require Import Lib.Bytes Model.FsProto Model.FsLinks Model.SaveLog.\nOpen Scope N_scope.\n")
+	entryEq := "(fun fs pe => match lookup (fst pe) fs with Some f => match f_kind f, f_kind (snd pe) with KReg, KReg | KDir, KDir | KSymlink, KSymlink => true | _, _ => false end && str_eqb (f_data f) (f_data (snd pe)) && (f_mode f =? f_mode (snd pe)) | None => false end)"
+	for i, c := range cases {
+		want := "None"
+		if a := ans[2*i]; strings.HasPrefix(a, "bad ") {
+			want = "Some " + c09CoqStr(unhx(strings.TrimPrefix(a, "bad ")))
+		} else if a != "ok" {
+			res.Broken = "oracle answer " + q(a)
+			return
+		}
+		fmt.Fprintf(&sb, "Definition linit_%d : fsmap := %s.\nDefinition lcur_%d : fsmap := %s.\nDefinition lprog_%d : list laction := %s.\n",
+			i, c05CoqFs(c05LSub(c.Init)), i, c05CoqFs(c05LSub(c.Cur)), i, c05CoqLProg(c.LinkArgs, trim(c.Prog)))
+		fmt.Fprintf(&sb, "Example lunnamed_%d : l_unnamed_changed linit_%d lprog_%d lcur_%d = %s.\nProof. vm_compute. reflexivity. Qed.\n", i, i, i, i, want)
+		parts := strings.Split(ans[2*i+1], " / ")
+		fin, ok := c05ParseListing(parts[len(parts)-1])
+		if !ok {
+			res.Broken = "oracle answer " + q(ans[2*i+1])
+			return
+		}
+		fmt.Fprintf(&sb, "Example lrun_%d : let fs := st_fs (lw_st (lrun lprog_%d (init_lworld (mkstate linit_%d [] %d) %s))) in\n  forallb (%s fs) %s && Nat.eqb (length fs) %d = true.\nProof. vm_compute. reflexivity. Qed.\n",
+			i, i, i, umask, plans[i%len(plans)].coq, entryEq, c05CoqFs(fin), len(fin))
+	}
+	for j, l := range lines {
+		i := strings.Index(l, ": Cannot write: ")
+		fmt.Fprintf(&sb, "Example errline_%d : error_line (CannotWrite, %s) %s = %s.\nProof. vm_compute. reflexivity. Qed.\n",
+			j, c09CoqStr(l[len("ERROR: "):i]), c09CoqStr(l[i+len(": Cannot write: "):]), c09CoqStr(unhx(ans[2*len(cases)+j])))
+	}
+	file := filepath.Join(ctx.Work, "c05linkcases.v")
+	if err := os.WriteFile(file, []byte(sb.String()), 0o644); err != nil {
+		res.Broken = err.Error()
+		return
+	}
+	cmd := exec.Command("timeout", "600", "coqc", "-Q", filepath.Join(ctx.Verif, "coq"), "PV", file)
+	cmd.Dir = ctx.Work
+	out, err := cmd.CombinedOutput()
+	if err != nil {
+		msg := string(out)
+		if len(msg) > 600 {
+			msg = msg[:600]
+		}
+		res.AddViolation(Violation{Key: "C05/extraction-vs-vm_compute/links",
+			What:       "the extracted oracle and coqc's vm_compute disagree on l_unnamed_changed / lrun / error_line (or coqc failed): " + msg,
+			FoundInput: false, Replay: map[string]any{"broken": "extraction cross-check (link-aware model)", "detail": msg}})
+		return
+	}
+	res.Count("vm_compute_cross_checked_links", 2*len(cases)+len(lines))
 }
